@@ -5,7 +5,10 @@ from typing import List, Union, Dict, Optional, Iterator, Tuple
 
 from anytree import AnyNode, RenderTree
 
-from .numeric_symbolic_operations import simplify_complex_numeric_expression
+from .numeric_symbolic_operations import (
+    simplify_complex_numeric_expression,
+    is_number_string,
+)
 from .pddl_function import PDDLFunction
 
 EPSILON = float(os.environ.get("EPSILON", 0.0001))
@@ -442,6 +445,10 @@ class NumericalExpressionTree:
         simplified_left_side = simplify_complex_numeric_expression(
             left_side_op, decimal_digits=decimal_digits
         )
+        if is_number_string(simplified_left_side) and is_number_string(right_side_op):
+            # a comparison of two numbers is not a PDDL condition: the expression is printed as it is.
+            return self.to_pddl(decimal_digits)
+
         return f"({self.root.value} {simplified_left_side} {right_side_op})"
 
     def to_mathematical(self) -> str:
